@@ -451,7 +451,8 @@ class OutlierSuite(PairedSuite):
                                   n_humans=rng.choice([None, None, 1]),
                                   # (a human leader need not pull off at Look to + 3 s: two or three places later or earlier
                                   # - the measure of "places out" is the line being rung, not the nominal start)
-                                  offset_places=rng.choice([0, 0, 2, -2, 3]) if leads else 0)
+                                  offset_places=rng.choice([0, 0, 2, -2, 3]) if leads else 0,
+                                  via_setting=(i % 4 == 3))
             iv, n = Fraction(orc["iv"]), orc["n"]
             # "once the rhythm is settled": from the third whole row on (two or more datapoints are held)
             cands = [(j, hb) for j, hb in enumerate(orc["human_blows"]) if hb[0] >= 2 and hb[0] <= 6]
@@ -459,6 +460,12 @@ class OutlierSuite(PairedSuite):
             idx = sum(1 for hb in orc["human_blows"][:j] if hb[2] == b)
             # between three places and (safely) less than the distance to the same bell's neighbouring strikes
             places = Fraction(rng.randint(300, max(301, (n - 2) * 100)), 100) * rng.choice([-1, 1])
+            if i % 4 == 3:
+                # server mode: just before the blunder the peal speed in force is sent AGAIN (somebody touched the control
+                # without moving it): the rhythm stays settled, and so does its memory of the band
+                t_set = min(Fraction(t), Fraction(t) + iv * places) - iv * Fraction(rng.randint(20, 60), 100)
+                a = copy.deepcopy(a)
+                a["events"] = sorted_events(a["events"] + [ev(t_set, "setting", [["peal_speed", a["rhythm"]["peal_speed"]]])])
             b_sc = perturb_events(a, {(b, idx): Fraction(t) + iv * places + Fraction(1, 10 ** 6)})
             yield {"a": a, "b": b_sc, "pick": "b" if i % 2 else "a",
                    "oracle": dict(orc, displaced=[r, p, b, float(places)])}
